@@ -37,6 +37,7 @@ import (
 	"github.com/megaease/easegress/pkg/protocols/httpprot"
 	"github.com/megaease/easegress/pkg/protocols/httpprot/httpstat"
 	"github.com/megaease/easegress/pkg/supervisor"
+	"go.etcd.io/etcd/api/v3/mvccpb"
 	"verif/simkit/sim"
 	"verif/simkit/simnet"
 )
@@ -112,6 +113,8 @@ func (t *c06Tap) Handle(ctx *context.Context) string {
 
 type c06Rec struct {
 	id        string
+	gen       int       // pipeline generation whose handler the mux obtained for this request
+	tGot      time.Time // when it obtained it
 	reached   int
 	passed    int
 	invalid   int
@@ -131,20 +134,153 @@ type c06Chain struct {
 	sc    *c06Scenario
 	net   *simnet.Net
 	front *http.Server
-	pipe  *pipeline.Pipeline
+	pipe  *pipeline.Pipeline // current generation
+	gen   int
 	mux   *mux
 	recs  map[string]*c06Rec
+
+	super    *supervisor.Supervisor
+	mapper   *c06Mapper
+	cfgs     []c06Cfg    // Validator configuration of every generation built so far
+	closedAt []time.Time // when generation i was closed (zero: still live)
+	users    []c06User   // the credential store (etcd) right now
+	epochs   []c06Epoch  // history of the credential store
+	syncers  []*c06Syncer
+	pending  *c06Epoch // a push that has begun and not settled yet
+	jcfg     *c06Cfg   // configuration the request under evaluation is judged by
+}
+
+// c06Epoch is one state of the credential store: it may be in force from
+// start (the push began) and is certainly in force from settled (the system
+// was quiescent after the push) until the next epoch.
+type c06Epoch struct {
+	start, settled time.Time
+	users          []c06User
+	afterGen       int // generation current when the push was made
+}
+
+// c06Syncer is the cluster.Syncer handed to the basicAuth validator: like the
+// real one it delivers prefix snapshots on a channel until it is closed.
+type c06Syncer struct {
+	ch     chan map[string]string
+	done   chan struct{}
+	closed bool
+}
+
+func (s *c06Syncer) Sync(string) (<-chan *string, error)             { return nil, nil }
+func (s *c06Syncer) SyncRaw(string) (<-chan *mvccpb.KeyValue, error) { return nil, nil }
+func (s *c06Syncer) SyncRawPrefix(string) (<-chan map[string]*mvccpb.KeyValue, error) {
+	return nil, nil
+}
+func (s *c06Syncer) SyncPrefix(string) (<-chan map[string]string, error) { return s.ch, nil }
+func (s *c06Syncer) Close() {
+	if !s.closed {
+		s.closed = true
+		close(s.done)
+	}
 }
 
 var c06Cur *c06Chain
 
 var c06ServerSpecs = map[string]*supervisor.Spec{}
 
-type c06Mapper struct{ m map[string]context.Handler }
+type c06Mapper struct {
+	get func(name string) (context.Handler, bool)
+}
 
-func (m *c06Mapper) GetHandler(name string) (context.Handler, bool) {
-	h, ok := m.m[name]
-	return h, ok
+func (m *c06Mapper) GetHandler(name string) (context.Handler, bool) { return m.get(name) }
+
+type c06HandlerFunc func(ctx *context.Context) string
+
+func (f c06HandlerFunc) Handle(ctx *context.Context) string { return f(ctx) }
+
+func c06PipelineYAML(cfg *c06Cfg) string {
+	return "name: pipe\nkind: Pipeline\nflow:\n- filter: c06tapa\n- filter: validator\n  jumpIf:\n    invalid: c06taprej\n- filter: c06tapb\n- filter: END\n- filter: c06taprej\n" +
+		"filters:\n- name: c06tapa\n  kind: C06Tap\n" + c06ValidatorYAML(cfg) + "- name: c06tapb\n  kind: C06Tap\n- name: c06taprej\n  kind: C06Tap\n"
+}
+
+// kvs renders the credential store as the etcd key/value pairs of the prefix.
+func (c *c06Chain) kvs() map[string]string {
+	out := map[string]string{}
+	for i, u := range c.users {
+		stored := u.Pass
+		if u.Store == "sha" {
+			stored = c06HtpasswdSHA(u.Pass)
+		}
+		out[fmt.Sprintf("/custom-data/c06-users/k%d", i)] = fmt.Sprintf("key: %s\nusername: %s\npassword: %s\n", c06Q(fmt.Sprintf("k%d", i)), c06Q(u.Name), c06Q(stored))
+	}
+	return out
+}
+
+// push changes the credential store and lets every live syncer deliver the new
+// snapshot; it returns once the system has been quiescent afterwards.
+func (c *c06Chain) push(users []c06User) {
+	c.users = users
+	ep := c06Epoch{start: time.Now(), users: users, afterGen: c.gen}
+	c.pending = &ep
+	snap := c.kvs()
+	delivered := 0
+	for _, sy := range c.syncers {
+		if sy.closed {
+			continue
+		}
+		m := map[string]string{}
+		for k, v := range snap {
+			m[k] = v
+		}
+		select {
+		case sy.ch <- m:
+			delivered++
+		case <-sy.done:
+		}
+	}
+	// virtual time only passes when every goroutine is durably blocked: the
+	// receivers have finished reloading by then
+	time.Sleep(time.Millisecond)
+	c.r.Yield("c06.push.settled")
+	ep.settled = time.Now()
+	c.pending = nil
+	c.epochs = append(c.epochs, ep)
+	c.r.Eventf("credential store push #%d: %d users, delivered to %d live syncers, settled at %v", len(c.epochs)-1, len(users), delivered, c.r.Now())
+}
+
+// newGeneration builds the next pipeline generation exactly as an update of
+// the pipeline object does: the new one inherits from the current one, which
+// is closed by Pipeline.Inherit.
+func (c *c06Chain) newGeneration(cfg c06Cfg) error {
+	pyaml := c06PipelineYAML(&cfg)
+	pspec, err := c.super.NewSpec(pyaml)
+	if err != nil {
+		return fmt.Errorf("pipeline spec: %v\n%s", err, pyaml)
+	}
+	n := &pipeline.Pipeline{}
+	var pv interface{}
+	var st string
+	func() {
+		defer func() {
+			if p := recover(); p != nil {
+				pv, st = p, c06Stack()
+			}
+		}()
+		n.Inherit(pspec, c.pipe, c.mapper)
+	}()
+	if pv != nil {
+		c.r.Violate("C06.inherit-panic", "Pipeline.Inherit of generation %d panicked: %v\n%s\n%s", c.gen+1, pv, st, pyaml)
+		return fmt.Errorf("inherit panicked")
+	}
+	// let the closed generation's goroutines wind down before anything else
+	// is done to the system (a watcher woken by its cancellation and by a
+	// pending snapshot at once would choose between them at random)
+	closed := time.Now()
+	c.closedAt[c.gen] = closed
+	c.pipe = n
+	c.gen++
+	c.cfgs = append(c.cfgs, cfg)
+	c.closedAt = append(c.closedAt, time.Time{})
+	c.r.Eventf("pipeline generation %d in force at %v", c.gen, c.r.Now())
+	time.Sleep(time.Microsecond)
+	c.r.Yield("c06.gen.settled")
+	return nil
 }
 
 func c06Stack() string {
@@ -235,44 +371,48 @@ func c06NewChain(r *sim.Run, sc *c06Scenario) (*c06Chain, error) {
 	// the supervisor hands the basicAuth validator (ETCD mode) a cluster: the
 	// stored credentials come from the scenario
 	cls := clustertest.NewMockedCluster()
-	kvs := map[string]string{}
 	if cfg.Basic != nil {
-		for i, u := range cfg.Basic.Users {
-			stored := u.Pass
-			switch u.Store {
-			case "sha":
-				stored = c06HtpasswdSHA(u.Pass)
-			}
-			kvs[fmt.Sprintf("/custom-data/c06-users/k%d", i)] = fmt.Sprintf("key: %s\nusername: %s\npassword: %s\n", c06Q(fmt.Sprintf("k%d", i)), c06Q(u.Name), c06Q(stored))
-		}
+		c.users = append([]c06User(nil), cfg.Basic.Users...)
 	}
+	c.epochs = []c06Epoch{{users: c.users}}
 	cls.MockedGetPrefix = func(prefix string) (map[string]string, error) {
 		out := map[string]string{}
-		for k, v := range kvs {
+		for k, v := range c.kvs() {
 			if strings.HasPrefix(k, prefix) {
 				out[k] = v
 			}
 		}
 		return out, nil
 	}
-	syncCh := make(chan map[string]string)
 	cls.MockedSyncer = func(time.Duration) (cluster.Syncer, error) {
-		s := clustertest.NewMockedSyncer()
-		s.MockedSyncPrefix = func(string) (<-chan map[string]string, error) { return syncCh, nil }
-		return s, nil
+		sy := &c06Syncer{ch: make(chan map[string]string), done: make(chan struct{})}
+		c.syncers = append(c.syncers, sy)
+		return sy, nil
 	}
-	super := supervisor.NewMock(nil, cls, sync.Map{}, sync.Map{}, nil, nil, false, nil, nil)
+	c.super = supervisor.NewMock(nil, cls, sync.Map{}, sync.Map{}, nil, nil, false, nil, nil)
 
-	pyaml := "name: pipe\nkind: Pipeline\nflow:\n- filter: c06tapa\n- filter: validator\n  jumpIf:\n    invalid: c06taprej\n- filter: c06tapb\n- filter: END\n- filter: c06taprej\n" +
-		"filters:\n- name: c06tapa\n  kind: C06Tap\n" + c06ValidatorYAML(cfg) + "- name: c06tapb\n  kind: C06Tap\n- name: c06taprej\n  kind: C06Tap\n"
-	pspec, err := super.NewSpec(pyaml)
+	pyaml := c06PipelineYAML(cfg)
+	pspec, err := c.super.NewSpec(pyaml)
 	if err != nil {
 		return nil, fmt.Errorf("pipeline spec: %v\n%s", err, pyaml)
 	}
-	mapper := &c06Mapper{m: map[string]context.Handler{}}
+	c.mapper = &c06Mapper{}
+	c.mapper.get = func(string) (context.Handler, bool) {
+		p, g := c.pipe, c.gen
+		return c06HandlerFunc(func(ctx *context.Context) string {
+			if req, ok := ctx.GetInputRequest().(*httpprot.Request); ok {
+				if rec := c.recs[req.HTTPHeader().Get("X-Verif-Id")]; rec != nil {
+					rec.gen, rec.tGot = g, time.Now()
+				}
+			}
+			return p.Handle(ctx)
+		}), true
+	}
+	mapper := c.mapper
 	c.pipe = &pipeline.Pipeline{}
 	c.pipe.Init(pspec, mapper)
-	mapper.m["pipe"] = c.pipe
+	c.cfgs = []c06Cfg{*cfg}
+	c.closedAt = []time.Time{{}}
 
 	syaml := "name: front\nkind: HTTPServer\nport: 10080\nkeepAlive: true\nhttps: false\n"
 	if cfg.SrvMax != 0 {
